@@ -141,6 +141,18 @@ Proof. exact gc_elements_full. Qed.
    original one up to the renaming of references; the set reachable from the exports and the initial state is such a set (least fixpoint over
    a finite index range), so sequences of export calls behave identically; removing a reachable function changes behaviour (witness).
    Interface left per operator: a non-call operator cannot invent a function reference (shown for reference-moving operators). *)
+(* the used-analysis follows EVERY reference emission needs: each index immediate the emitter writes for an instruction is the emit-time index of
+   one of the references the derived Instr::visit reports for it (both tables regenerated from the source: a field marked skip_visit that the
+   emitter still looks up breaks this); and conversely every visited reference of a parsed instruction was resolved from one of its indices *)
+From WV Require Proofs.ModFix14 Proofs.TotalityBodies.
+Theorem c06_every_index_the_emitter_writes_is_a_visited_reference : forall id2i p w, encode_plain id2i p = Some w ->
+  forall s i, In (s, i) (wop_refs w) -> exists id, In (s, id) (visited_refs p) /\ i = id2i s id.
+Proof. exact Proofs.ModFix14.encode_refs_in. Qed.
+
+Theorem c06_every_visited_reference_comes_from_an_index : forall i2id o p, decode_plain i2id o = Some p ->
+  forall sp id, In (sp, id) (visited_refs p) -> exists i, In (sp, i) (wop_refs o) /\ id = i2id sp i.
+Proof. exact Proofs.TotalityBodies.decode_refs. Qed.
+
 From Coq Require Import String.
 From WV Require Import Proofs.SemCalls Proofs.SemGc.
 Theorem c06_dropping_unreachable_functions_preserves_behaviour :
@@ -231,3 +243,5 @@ Print Assumptions c06_reachable_set_is_closed.
 Print Assumptions c06_export_call_sequences_behave_the_same.
 Print Assumptions c06_interface_holds_for_reference_moving_operators.
 Print Assumptions c06_dropping_a_reachable_function_differs.
+Print Assumptions c06_every_index_the_emitter_writes_is_a_visited_reference.
+Print Assumptions c06_every_visited_reference_comes_from_an_index.
